@@ -24,9 +24,10 @@ var errInjected = errors.New("injected writer fault")
 // faultWriter accepts bytes up to limit (-1 = unlimited); the failing call takes what still fits (short write) or
 // nothing (zero write) and returns an error, as the io.Writer contract requires.
 type faultWriter struct {
-	got   []byte
-	limit int
-	zero  bool
+	got    []byte
+	limit  int
+	zero   bool
+	silent bool // breaks the io.Writer contract: the failing call, and every later one, returns no error
 }
 
 func (w *faultWriter) Write(p []byte) (int, error) {
@@ -34,15 +35,19 @@ func (w *faultWriter) Write(p []byte) (int, error) {
 		w.got = append(w.got, p...)
 		return len(p), nil
 	}
+	var err error = errInjected
+	if w.silent {
+		err = nil
+	}
 	if w.zero {
-		return 0, errInjected
+		return 0, err
 	}
 	room := w.limit - len(w.got)
 	if room < 0 {
 		room = 0
 	}
 	w.got = append(w.got, p[:room]...)
-	return room, errInjected
+	return room, err
 }
 
 // faultStringWriter additionally implements io.StringWriter.
@@ -55,8 +60,8 @@ func runC10(e *emitter, tier string, seed uint64) {
 	defer runC14(e, tier, seed)
 	r := &rng{s: seed}
 	// 1. runtime.Buffer against the bufio model: small capacities, every fault offset, both fault modes, Write / WriteString / Flush
-	doBuf := func(capN int, limit int, zero, sw bool, ops []string) {
-		key := fmt.Sprintf("buf %d %d %v %v %s", capN, limit, zero, sw, strings.Join(ops, ","))
+	doBuf := func(capN int, limit int, zero, sw, silent bool, ops []string) {
+		key := fmt.Sprintf("buf %d %d %v %v %v %s", capN, limit, zero, sw, silent, strings.Join(ops, ","))
 		if !e.mine(key) {
 			return
 		}
@@ -65,36 +70,53 @@ func runC10(e *emitter, tier string, seed uint64) {
 		b := &templruntime.Buffer{}
 		var fw *faultWriter
 		if sw {
-			f := &faultStringWriter{faultWriter{limit: limit, zero: zero}}
+			f := &faultStringWriter{faultWriter{limit: limit, zero: zero, silent: silent}}
 			fw = &f.faultWriter
 			b.Reset(f)
 		} else {
-			fw = &faultWriter{limit: limit, zero: zero}
+			fw = &faultWriter{limit: limit, zero: zero, silent: silent}
 			b.Reset(fw)
 		}
 		templruntime.DefaultBufferSize = old
 		var res []string
-		for _, op := range ops {
-			var err error
-			switch op[0] {
-			case 'w':
-				_, err = b.Write([]byte(unhx(op[2:])))
-			case 's':
-				_, err = b.WriteString(unhx(op[2:]))
-			case 'f':
-				err = b.Flush()
+		runOps := func() {
+			for _, op := range ops {
+				var err error
+				switch op[0] {
+				case 'w':
+					_, err = b.Write([]byte(unhx(op[2:])))
+				case 's':
+					_, err = b.WriteString(unhx(op[2:]))
+				case 'f':
+					err = b.Flush()
+				}
+				if err != nil {
+					res = append(res, "1")
+				} else {
+					res = append(res, "0")
+				}
 			}
-			if err != nil {
-				res = append(res, "1")
-			} else {
-				res = append(res, "0")
+		}
+		got := ""
+		if silent {
+			// a writer that takes nothing and says nothing can wedge a loop: a hang is an outcome, not a hung check
+			done := make(chan struct{})
+			go func() { defer close(done); runOps() }()
+			select {
+			case <-done:
+				got = string(fw.got)
+			case <-time.After(3 * time.Second):
+				res = []string{"hang"}
 			}
+		} else {
+			runOps()
+			got = string(fw.got)
 		}
 		lim := "-"
 		if limit >= 0 {
 			lim = fmt.Sprint(limit)
 		}
-		e.emit(key, "buf", fmt.Sprint(capN), lim, fmt.Sprint(zero), fmt.Sprint(sw), strings.Join(ops, ","), hx(string(fw.got)), strings.Join(res, ","))
+		e.emit(key, "buf", fmt.Sprint(capN), lim, fmt.Sprint(zero), fmt.Sprint(sw), fmt.Sprint(silent), strings.Join(ops, ","), hx(got), strings.Join(res, ","))
 	}
 	chunks := []string{"a", "bc", "defg", "hijklmn", "0123456789ABCDEF", ""}
 	nseq := 60
@@ -123,7 +145,10 @@ func runC10(e *emitter, tier string, seed uint64) {
 			for limit := -1; limit <= total; limit++ {
 				for _, zero := range []bool{false, true} {
 					for _, sw := range []bool{true, false} {
-						doBuf(capN, limit, zero, sw, ops)
+						doBuf(capN, limit, zero, sw, false, ops)
+						if limit >= 0 {
+							doBuf(capN, limit, zero, sw, true, ops)
+						}
 					}
 				}
 			}
